@@ -230,6 +230,40 @@ def rule_r2_r3(ck, prog, spec):
                                 "sees what the previous unit or message left behind" % (p, readers[:5]),
                                 {"stored_in_SCPI_Parse_before_processCommand": sorted(x for x in s1 if "context" in x),
                                  "stored_in_processCommand_before_callback": sorted(x for x in s2 if "context" in x)})
+    # the drivers themselves: no read of per-unit state before this unit stored it
+    fch = list(parse.calls("findCommandHeader"))
+    pgf, stf = X.must_stored(find, prog=prog)
+    drivers = [(parse, pgp, stp, frozenset())]
+    if fch:
+        drivers.append((find, pgf, stf, stp.get(pgp.before(fch[0]), frozenset())))
+    drivers.append((proc, pgc, stc, stp.get(pgp.before(pcs[0]), frozenset())))
+    nd = 0
+    for fn, g_, st_, inherited in drivers:
+        occ = {}
+        for n, p, k in X.accesses(fn):
+            if not p.startswith("context->") or k not in ("read", "rw"):
+                continue
+            if spec["fields"].get(top_field(p)) != "transient-unit":
+                continue
+            base = p
+            i = base.find("->", len("context->"))
+            if i >= 0:
+                base = base[:i]
+            pt = g_.before(n)
+            if pt is None or pt not in st_:
+                continue
+            j = occ.get(base, 0)
+            occ[base] = j + 1
+            stt = K.site(fn, "driver-read(%s)" % base, j)
+            nd += 1
+            if X.covers(base, set(st_[pt]) | set(inherited)):
+                ck.holds("C09-R3", stt, K.loc(fn, n), "read after this unit stored it")
+            else:
+                ck.violated("C09-R3", stt, K.loc(fn, n),
+                            "%s reads `%s` before it is stored for this unit: the decision depends on what the previous unit "
+                            "or message left behind" % (fn.name, base))
+    if nd < 4:
+        ck.anchor_lost("C09-R3", "only %d reads of per-unit state in the drivers" % nd)
     ck.floor("C09-R3", 8)
     ck.analysed(parse, proc, find)
 
